@@ -777,6 +777,7 @@ class ParametersVisitor(LoggerProperty, ast.NodeVisitor):
 
         params_list = []
         removed_params: Set[str] = set()
+        popped_params: Set[str] = set()
         kwargs_value = kwargs_name and values_to_find[kwargs_name]
         kwargs_value_dump = kwargs_value and ast.dump(kwargs_value)
         for node, source in [(v, s) for k, v, s in values_found if k == kwargs_name]:
@@ -784,6 +785,8 @@ class ParametersVisitor(LoggerProperty, ast.NodeVisitor):
                 if ast_is_kwargs_pop_or_get(node, kwargs_value_dump):
                     param = self.get_kwargs_pop_or_get_parameter(node, self.component, self.parent, self.doc_params)
                     params_list.append([param])
+                    if node.func.attr == "pop":  # a popped name is accepted here even if also given to a callee
+                        popped_params.add(param.name)
                     continue
                 kwarg = ast_get_call_kwarg_with_value(node, kwargs_value)
                 params = []
@@ -815,7 +818,7 @@ class ParametersVisitor(LoggerProperty, ast.NodeVisitor):
                     self.log_debug(f"unsupported type of assign: {ast_str(node)}")
 
         params = group_parameters(params_list)
-        params = [p for p in params if p.name not in removed_params]
+        params = [p for p in params if p.name not in removed_params or p.name in popped_params]
         return split_args_and_kwargs(params)
 
     def get_parameters_attr_use_in_members(self, attr_name) -> ParamList:
